@@ -108,6 +108,21 @@ class Ctx:
         info['value'] = v
         return np.float64(v)   # numpy flavour: x/0 -> inf, like the arrays in the library
 
+    def pinned(self, name, value):
+        """a symbol constrained to one value: keeps the arithmetic exact (a concrete float would be rounded by numpy
+        at every step and break exact identities) while leaving nothing to explore"""
+        if self.sym:
+            t = z3.Real(name)
+            self.inputs[name] = dict(kind='real', term=t, lo=value, hi=value, ne=None)
+            _sv.E.assume(t == rv(value))
+            if value > 0:
+                _sv.E.know_sign(t, 1)
+            elif value < 0:
+                _sv.E.know_sign(t, -1)
+            return SV(t=t)
+        self.inputs[name] = dict(kind='real', value=float(value))
+        return np.float64(value)
+
     def boolean(self, name):
         info = dict(kind='bool')
         self.inputs[name] = info
